@@ -87,9 +87,28 @@ def gen_fanout(rng, budget=20000, hang=False):
     return {'env': [[k.hex(), v.hex()] for k, v in env], 'template': t.hex(), 'fanout': [F, levels + 1, len(leaf)]}
 
 
+def gen_longname(rng):
+    """names around the sizes at which a fixed buffer would cut them (NAME_MAX 255, PATH_MAX 4096, BUFSIZ 8192): the long
+    name and a proper prefix of it are both defined with different values, or only the prefix is (the long one must then be
+    an unknown variable); referenced from the template and from inside a value (seeded/C09-3: a stack buffer of PATH_MAX)"""
+    n = rng.choice([254, 255, 256, 1023, 1024, 4094, 4095, 4096, 4097, 8191, 8192, 8200])
+    stem = (b'n' + b'abcdefghij' * 900)[:n]
+    cut = rng.choice([n - 1, n - 2, 255, 4095, 1023])
+    cut = max(1, min(cut, n - 1))
+    env = [(stem[:cut], b'short')]
+    if rng.random() < 0.6:
+        env.append((stem, b'long'))
+    env.append((b'v', b'<${' + stem + b'}>'))
+    t = rng.choice([b'X=${' + stem[:cut] + b'} Y=${' + stem + b'}\n', b'${v}\n', b'ok\n${' + stem + b'}\n', b'${' + stem + b'}'])
+    rng.shuffle(env)
+    return {'env': [[k.hex(), v.hex()] for k, v in env], 'template': t.hex(), 'longname': n}
+
+
 def gen_case(rng):
     if rng.random() < 0.06:
         return gen_fanout(rng)
+    if rng.random() < 0.03:
+        return gen_longname(rng)
     env = gen_env(rng)
     t = gen_text(rng, [n for n, _ in env] + NAMES[:4] + [b'zz'], 8)
     if rng.random() < 0.5 and t and not t.endswith(b'\n'):
